@@ -1013,6 +1013,252 @@ Proof.
   eapply inv_str_step; try eassumption. eapply inv_pool_reachable; eassumption.
 Qed.
 
+(* ---------------------------------------------------------------- without recycling (hypothetical repair) *)
+(* where a "process packet p on object c" program counter comes from *)
+Lemma do_lookup_want g (s : State) t p prog c p' fwd :
+  t < length (s_thr s) ->
+  t_pc (thr (do_lookup cstate g s t p prog) t) = PWant c (WPkt p' fwd) ->
+  p' = p /\ lookup g (s_conns s) (p_key p) = Some (c, fwd).
+Proof.
+  intros Lt. unfold do_lookup, thr; cbn [s_thr]. unfold set_thr. rewrite nth_upd_eq by assumption.
+  destruct (lookup g (s_conns s) (p_key p)) as [[c0 fwd0]|] eqn:EL; cbn.
+  - intros H; inversion H; subst. auto.
+  - destruct (end_flag g p); cbn; [destruct prog; discriminate|discriminate].
+Qed.
+
+Lemma exec_want g (s : State) t s' : exec' g s t = Some s' ->
+  forall c p fwd, t_pc (thr s' t) = PWant c (WPkt p fwd) ->
+    lookup g (s_conns s) (p_key p) = Some (c, fwd) \/
+    (t_pc (thr s t) = PMiss p /\ lookup g (s_conns s) (p_key p) = None /\ c = fst (fst (pop s)) /\ fwd = true).
+Proof.
+  intros E. assert (Lt : t < length (s_thr s)).
+  { apply enabled_lt. unfold exec in E. destruct (enabled' s t); [reflexivity|discriminate]. }
+  revert E. unfold exec. destruct (enabled' s t); cbn [negb]; [|discriminate].
+  assert (Hthr : forall c f (o : list Conn) n k th l tg,
+     thr (mkSt c f o n k (set_thr cstate s t th) l tg) t = th).
+  { intros. unfold thr; cbn [s_thr]. unfold set_thr. apply nth_upd_eq; assumption. }
+  destruct (t_pc (thr s t)) eqn:Epc.
+  - destruct (t_prog (thr s t)) as [|[p|] rest] eqn:Epr.
+    + intros H; inversion H; subst; clear H. intros c p0 fwd. rewrite Hthr. cbn. discriminate.
+    + destruct (ignored g p); intros H; inversion H; subst; clear H; intros c p0 fwd.
+      * rewrite Hthr. cbn. destruct rest; discriminate.
+      * intros Hx. left. destruct (do_lookup_want _ _ _ _ _ _ _ _ Lt Hx) as [-> HL]. exact HL.
+    + intros H; inversion H; subst; clear H. intros c p0 fwd. rewrite Hthr. cbn [t_pc].
+      unfold cont_flush. destruct (sort_ids (map snd (s_conns s))); [destruct rest|]; discriminate.
+  - unfold pop. destruct (s_free s) as [|c0 f] eqn:Ef; cbn [fst];
+    (destruct (lookup g (s_conns s) (p_key p)) as [[c2 fwd2]|] eqn:EL;
+     [match goal with |- context[if ?b then _ else _] => destruct b end|]);
+    intros H; inversion H; subst; clear H; intros c p0 fwd; rewrite Hthr; cbn [t_pc];
+    try discriminate;
+    intros Hx; inversion Hx; subst; auto.
+  - destruct w as [p fwd0|rest].
+    + destruct (match g_pkg g with Tcp => cclosed (c_st (obj' s c)) | Rsm => false end).
+      * intros H; inversion H; subst; clear H. intros c1 p0 fwd. rewrite Hthr. cbn. discriminate.
+      * destruct (process (c_st (obj' s c)) fwd0 p) as [[st' evs] closes].
+        destruct closes; intros H; inversion H; subst; clear H; intros c1 p0 fwd; rewrite Hthr; cbn [t_pc];
+          [discriminate|destruct (t_prog (thr s t)); discriminate].
+    + destruct (flush (c_st (obj' s c))) as [[st' evs] closes].
+      destruct closes; intros H; inversion H; subst; clear H; intros c1 p0 fwd; rewrite Hthr; cbn [t_pc];
+        [discriminate|].
+      unfold cont_flush. destruct rest; [destruct (t_prog (thr s t))|]; discriminate.
+  - intros H; inversion H; subst; clear H. intros c1 p0 fwd. rewrite Hthr. cbn [t_pc].
+    destruct k as [|rest]; [destruct (t_prog (thr s t)); discriminate|].
+    unfold cont_flush. destruct rest; [destruct (t_prog (thr s t))|]; discriminate.
+  - intros H; inversion H; subst; clear H. intros c1 p0 fwd Hx. left.
+    destruct (do_lookup_want _ _ _ _ _ _ _ _ Lt Hx) as [-> HL]. exact HL.
+  - discriminate.
+  - discriminate.
+Qed.
+
+Definition key_for (p : packet) (fwd : bool) : key := if fwd then p_key p else key_rev (p_key p).
+
+Lemma lookup_key g conns k c fwd : lookup g conns k = Some (c, fwd) ->
+  In ((if fwd then k else key_rev k), c) conns /\ (fwd = false -> is_rsm g = true).
+Proof.
+  unfold lookup. destruct (assoc k conns) as [c1|] eqn:E1.
+  - intros H; inversion H; subst. split; [apply assoc_in; assumption|discriminate].
+  - destruct (is_rsm g); [|discriminate]. destruct (assoc (key_rev k) conns) as [c1|] eqn:E2; [|discriminate].
+    intros H; inversion H; subst. split; [apply assoc_in; assumption|reflexivity].
+Qed.
+
+(* no object is ever reset a second time: the free list stays empty, keys of existing objects
+   never change, and a thread about to process p holds a pointer to an object of p's connection *)
+Record inv_nr (g : config) (s : State) : Prop := mkNR {
+  nr_free : s_free s = [];
+  nr_want : forall t c p fwd, t_pc (thr s t) = PWant c (WPkt p fwd) ->
+              c_key (obj' s c) = key_for p fwd /\ (fwd = false -> is_rsm g = true);
+  nr_log : forall t p c ck sid, In (EProc t p c ck sid) (s_log s) ->
+              ck = p_key p \/ (is_rsm g = true /\ ck = key_rev (p_key p)) }.
+
+Lemma inv_nr_init g progs : inv_nr g (init cstate progs).
+Proof.
+  constructor.
+  - reflexivity.
+  - intros t c p fwd H. destruct (init_pc progs t) as [E|E]; rewrite E in H; discriminate.
+  - intros t p c ck sid H. destruct H.
+Qed.
+
+Lemma inv_nr_step g s t s' :
+  g_recycle g = false -> inv_pool g s -> inv_nr g s -> exec' g s t = Some s' -> inv_nr g s'.
+Proof.
+  intros G IP I E. assert (Lt : t < length (s_thr s)).
+  { apply enabled_lt. unfold exec in E. destruct (enabled' s t); [reflexivity|discriminate]. }
+  pose proof (exec_want _ _ _ _ E) as Hwant.
+  pose proof (inv_pool_step _ _ _ _ IP E) as IP'.
+  destruct I as [Nf Nw Nl].
+  assert (Hlk : forall c p fwd, lookup g (s_conns s) (p_key p) = Some (c, fwd) ->
+            c_key (obj' s c) = key_for p fwd /\ (fwd = false -> is_rsm g = true) /\ c < length (s_objs s)).
+  { intros c p fwd HL. destruct (lookup_key _ _ _ _ _ HL) as [Hin Hr].
+    destruct (ip_ent _ _ IP _ _ Hin) as [A B]. unfold key_for. auto. }
+  destruct (exec_spec _ _ _ _ E) as
+    [th' Hc Hf Ho Hn Hk Hl Ht Hnr Hnp Hnr0 Hnm0
+    |p th' c free' objs0 Hpc Hpop Hf Ho Hn Ht Hnr Hl Hcn Hpan
+    |c w st' evs closes th' Hpc Hlk2 Hw Ho Hc Hf Hn Hk Ht Hcl Hncl Hnp
+    |c k th' Hpc Ho Hcf Hn Hk Hl Ht Hnr Hnp].
+  - assert (Hobj : forall x, obj' s' x = obj' s x) by (intros x; apply obj_same; assumption).
+    constructor.
+    + rewrite Hf; assumption.
+    + intros t2 c p fwd Hp2. rewrite Hobj. destruct (Nat.eq_dec t2 t) as [->|N].
+      * destruct (Hwant _ _ _ Hp2) as [HL|[Hp _]]; [|exfalso; exact (Hnm0 _ Hp)].
+        destruct (Hlk _ _ _ HL) as [A [B _]]. auto.
+      * rewrite (thr_upd_ne _ _ _ _ _ N Ht) in Hp2. eauto.
+    + intros t0 p c ck sid Hin. rewrite Hl in Hin. eauto.
+  - (* the object taken is a new one *)
+    destruct (pop_cases _ _ _ _ Hpop) as [[Ef _]|[_ [Ef' [Ec Eo]]]]; [rewrite Nf in Ef; discriminate|].
+    assert (Hother : forall x, x <> c -> obj' s' x = obj' s x)
+      by (intros x N; eapply miss_obj_other; eassumption).
+    assert (Hnew : c_key (obj' s' c) = p_key p).
+    { unfold obj; rewrite Ho, nth_upd_eq; [reflexivity|]. subst. rewrite app_length; cbn; lia. }
+    constructor.
+    + rewrite Hf; assumption.
+    + intros t2 c2 p2 fwd Hp2. destruct (Nat.eq_dec t2 t) as [->|N].
+      * destruct (Hwant _ _ _ Hp2) as [HL|[Hp [_ [Hc2 ->]]]].
+        -- destruct (Hlk _ _ _ HL) as [A [B L]]. rewrite Hother by lia. auto.
+        -- rewrite Hpc in Hp. inversion Hp; subst p2. rewrite Hpop in Hc2. cbn in Hc2. subst c2.
+           split; [exact Hnew|discriminate].
+      * rewrite (thr_upd_ne _ _ _ _ _ N Ht) in Hp2.
+        assert (c2 < length (s_objs s)) by (apply (ip_range _ _ IP t2); rewrite Hp2; left; reflexivity).
+        rewrite Hother by lia. eauto.
+    + intros t0 p0 c0 ck sid Hin.
+      assert (In (EProc t0 p0 c0 ck sid) (s_log s)).
+      { destruct Hl as [Hl|Hl]; rewrite Hl in Hin; cbn in Hin.
+        - destruct Hin as [H|H]; [discriminate|exact H].
+        - destruct Hin as [H|[H|H]]; [discriminate|discriminate|exact H]. }
+      eauto.
+  - assert (Lc : c < length (s_objs s)) by (apply (ip_range _ _ IP t); rewrite Hpc; destruct w; left; reflexivity).
+    assert (Hother : forall x, x <> c -> obj' s' x = obj' s x) by (intros x N; eapply obj_upd_ne; eassumption).
+    pose proof (obj_upd_eq _ _ _ _ Lc Ho) as Hnew.
+    assert (Hkey : forall x, c_key (obj' s' x) = c_key (obj' s x)).
+    { intros x. destruct (Nat.eq_dec x c) as [->|N]; [rewrite Hnew; reflexivity|rewrite Hother; auto]. }
+    constructor.
+    + rewrite Hf; assumption.
+    + intros t2 c2 p2 fwd Hp2. rewrite Hkey. destruct (Nat.eq_dec t2 t) as [->|N].
+      * destruct (Hwant _ _ _ Hp2) as [HL|[Hp _]]; [|rewrite Hpc in Hp; discriminate].
+        destruct (Hlk _ _ _ HL) as [A [B _]]. auto.
+      * rewrite (thr_upd_ne _ _ _ _ _ N Ht) in Hp2. eauto.
+    + intros t0 p0 c0 ck sid Hin.
+      destruct Hw as [[p [fwd [Ew [_ Hl]]]]|[rest [_ [_ Hl]]]]; rewrite Hl in Hin; apply in_app_or in Hin as [H|H].
+      * apply in_rev in H. apply in_map_iff in H as [x [Hx _]]. discriminate.
+      * destruct H as [H|H]; [|eauto]. inversion H; subst.
+        destruct (Nw _ _ _ _ Hpc) as [A B]. rewrite A. unfold key_for. destruct fwd; [left; reflexivity|right; auto].
+      * apply in_rev in H. apply in_map_iff in H as [x [Hx _]]. discriminate.
+      * eauto.
+  - assert (Lc : c < length (s_objs s)) by (apply (ip_range _ _ IP t); rewrite Hpc; destruct k; left; reflexivity).
+    assert (Hother : forall x, x <> c -> obj' s' x = obj' s x) by (intros x N; eapply obj_upd_ne; eassumption).
+    pose proof (obj_upd_eq _ _ _ _ Lc Ho) as Hnew.
+    assert (Hkey : forall x, c_key (obj' s' x) = c_key (obj' s x)).
+    { intros x. destruct (Nat.eq_dec x c) as [->|N]; [rewrite Hnew; reflexivity|rewrite Hother; auto]. }
+    constructor.
+    + destruct Hcf as [[_ Hf]|[_ [Hf|[Hf _]]]]; try (rewrite Hf; assumption).
+      (* pushing on the free list needs g_recycle = true *)
+      exfalso. revert E. unfold exec. destruct (enabled' s t); cbn [negb]; [|discriminate].
+      rewrite Hpc. rewrite G. rewrite andb_false_r. intros H; inversion H; subst. cbn in Hf.
+      rewrite Nf in Hf. discriminate.
+    + intros t2 c2 p2 fwd Hp2. rewrite Hkey. destruct (Nat.eq_dec t2 t) as [->|N].
+      * destruct (Hwant _ _ _ Hp2) as [HL|[Hp _]]; [|rewrite Hpc in Hp; discriminate].
+        destruct (Hlk _ _ _ HL) as [A [B _]]. auto.
+      * rewrite (thr_upd_ne _ _ _ _ _ N Ht) in Hp2. eauto.
+    + intros t0 p c0 ck sid Hin. rewrite Hl in Hin. eauto.
+Qed.
+
+Lemma inv_nr_reachable g progs s : g_recycle g = false -> reachable g progs s -> inv_nr g s.
+Proof.
+  intros G. induction 1; [apply inv_nr_init|].
+  eapply inv_nr_step; try eassumption. eapply inv_pool_reachable; eassumption.
+Qed.
+
+Lemma right_stream_norecycle g progs s :
+  g_recycle g = false -> reachable g progs s -> chk_right_stream g s = true.
+Proof.
+  intros G R. pose proof (inv_nr_reachable _ _ _ G R) as [_ _ Nl].
+  unfold chk_right_stream. apply forallb_forall. intros e Hin.
+  destruct e as [| | t p c ck sid |]; try reflexivity. cbn.
+  destruct (Nl _ _ _ _ _ Hin) as [->|[Gr ->]].
+  - rewrite key_eqb_refl. reflexivity.
+  - rewrite Gr, key_eqb_refl. cbn. apply orb_true_r.
+Qed.
+
+(* lockset discipline without recycling *)
+Definition acc_ok (n : nat) (a : access) : Prop :=
+  (In KPool (a_locks a) /\ forall c, a_loc a = LSt c -> c = n) \/
+  (exists c, a_loc a = LSt c /\ a_locks a = [KObj c] /\ c < n).
+
+Lemma lock_eqb_refl k : lock_eqb k k = true.
+Proof. destruct k; cbn; [reflexivity|apply Nat.eqb_refl]. Qed.
+Lemma share_lock_in k l1 l2 : In k l1 -> In k l2 -> share_lock l1 l2 = true.
+Proof.
+  intros H1 H2. unfold share_lock. apply existsb_exists. exists k. split; [assumption|].
+  apply existsb_exists. exists k. split; [assumption|apply lock_eqb_refl].
+Qed.
+Lemma loc_eqb_eq a b : loc_eqb a b = true -> a = b.
+Proof. destruct a, b; cbn; try discriminate; try reflexivity; intros H; apply Nat.eqb_eq in H; congruence. Qed.
+
+Lemma acc_ok_no_conflict n a b : acc_ok n a -> acc_ok n b -> conflict a b = false.
+Proof.
+  intros Ha Hb. unfold conflict.
+  destruct (loc_eqb (a_loc a) (a_loc b)) eqn:El; [|reflexivity]. apply loc_eqb_eq in El.
+  destruct Ha as [[Ka Na]|[ca [La [Ka Lta]]]]; destruct Hb as [[Kb Nb]|[cb [Lb [Kb Ltb]]]].
+  - rewrite (share_lock_in KPool) by assumption. cbn. apply andb_false_r.
+  - exfalso. rewrite Lb in El. specialize (Na _ El). lia.
+  - exfalso. rewrite La in El. symmetry in El. specialize (Nb _ El). lia.
+  - rewrite La, Lb in El. inversion El; subst. rewrite Ka, Kb.
+    rewrite (share_lock_in (KObj cb)) by (left; reflexivity). cbn. apply andb_false_r.
+Qed.
+
+Lemma accesses_ok g (s : State) t :
+  inv_pool g s -> s_free s = [] -> forall a, In a (accesses cstate g s t) -> acc_ok (length (s_objs s)) a.
+Proof.
+  intros IP Nf a. unfold accesses. destruct (t_pc (thr s t)) eqn:Epc.
+  - destruct (t_prog (thr s t)) as [|[p|] r]; [intros []| |].
+    + destruct (ignored g p); [intros []|]. intros [<-|[]]. left. cbn. split; [auto|discriminate].
+    + intros [<-|[]]. left. cbn. split; [auto|discriminate].
+  - rewrite Nf. intros Hin. apply in_app_or in Hin as [Hin|Hin].
+    + destruct Hin as [<-|[<-|[<-|[]]]]; left; cbn; (split; [auto|]); try discriminate.
+      intros c H; inversion H; reflexivity.
+    + destruct (is_rsm g); [|destruct Hin].
+      destruct (lookup g (s_conns s) (p_key p)) as [[c2 f2]|]; [|destruct Hin].
+      destruct Hin as [<-|[]]. left; cbn. split; [auto|discriminate].
+  - assert (Lc : c < length (s_objs s)) by (apply (ip_range _ _ IP t); rewrite Epc; destruct w; left; reflexivity).
+    intros [<-|[<-|[]]]; right; exists c; cbn; auto.
+  - intros [<-|[<-|[]]]; left; cbn; (split; [auto|discriminate]).
+  - intros [<-|[]]. left. cbn. split; [auto|discriminate].
+  - intros [].
+  - intros [].
+Qed.
+
+Lemma lockset_norecycle g progs s :
+  g_recycle g = false -> reachable g progs s -> has_race cstate cinit g s = false.
+Proof.
+  intros G R. pose proof (inv_pool_reachable _ _ _ R) as IP.
+  pose proof (nr_free _ _ (inv_nr_reachable _ _ _ G R)) as Nf.
+  unfold has_race. apply not_true_iff_false. intros H.
+  apply existsb_exists in H as [t1 [_ H]]. apply existsb_exists in H as [t2 [_ H]].
+  unfold race_pair in H. apply andb_true_iff in H as [_ H].
+  apply existsb_exists in H as [a [Ha H]]. apply existsb_exists in H as [b [Hb H]].
+  rewrite (acc_ok_no_conflict (length (s_objs s)) a b) in H; [discriminate| |];
+    eapply accesses_ok; eassumption.
+Qed.
+
 End Proofs.
 
 (* ================================================================ the two concrete machines satisfy machine_ok *)
